@@ -434,8 +434,12 @@ func (n *NFA) Isomorphic(rhs *NFA) bool {
 	}
 
 	// N₁ and N₂ must have the same sorted degree sequence.
-	// len(degrees1) == len(degrees2) since N₁ and N₂ have the same number of states.
+	// Only states with at least one transition have a degree, so the two sequences can differ in length.
 	degrees1, degrees2 := n.getSortedDegreeSequence(), rhs.getSortedDegreeSequence()
+	if len(degrees1) != len(degrees2) {
+		return false
+	}
+
 	for i := range degrees1 {
 		if degrees1[i] != degrees2[i] {
 			return false
@@ -443,12 +447,12 @@ func (n *NFA) Isomorphic(rhs *NFA) bool {
 	}
 
 	// Since generatePermutations uses backtracking and modifies the slice in-place, we need a copy.
-	states := make([]State, len(states1))
-	copy(states, states1)
+	states := make([]State, len(states2))
+	copy(states, states2)
 
-	// Methodically checking if any permutation of N₁ states is equal to N₂.
+	// Methodically checking if any bijection from N₁ states onto N₂ states (a permutation of N₂ states) maps N₁ to N₂.
 	return !generatePermutations(states, 0, len(states)-1, func(permutation []State) bool {
-		// Create a bijection between the states of N₁ and the current permutation of N₁.
+		// Create a bijection between the states of N₁ and the current permutation of the states of N₂.
 		// A bijection or bijective function is a type of function that creates a one-to-one correspondence between two sets (states1 ↔ permutation).
 		bijection := make(map[State]State, len(states1))
 		for i, s := range states1 {
@@ -496,9 +500,9 @@ func (n *NFA) getSortedDegreeSequence() []int {
 		}
 	}
 
-	sortedDegrees := make([]int, len(totalDegrees))
-	for i, degree := range totalDegrees {
-		sortedDegrees[i] = degree
+	sortedDegrees := make([]int, 0, len(totalDegrees))
+	for _, degree := range totalDegrees {
+		sortedDegrees = append(sortedDegrees, degree)
 	}
 
 	sort.Quick3Way[int](sortedDegrees, generic.NewCompareFunc[int]())
